@@ -1,4 +1,5 @@
 import KalignModel.Lemmas.Progressive
+import KalignModel.Props.C03Kmeans
 /-!
 # C01 — alignment integrity: every input sequence is reproduced exactly
 
